@@ -5,6 +5,9 @@ HERE = os.path.dirname(os.path.abspath(__file__))
 TB = ("Lean 4.33.0 kernel (axioms: propext, Classical.choice, Quot.sound only; audited per theorem); "
       "hand-written Lean model tied to the code by an in-process differential correspondence run (go build -overlay harness) on every run; ")
 CHECKS = {
+ "C13": dict(text="Lean theorems rename_no_overwrite, contents_bijection (after any sequence of Put/Rename the provider's files correspond one-to-one to the originals, paths distinct), rename_candidate_injective_iter + handleRename_terminates_fresh (pigeonhole: a free name within |files|+1 candidates), closest_root_is_ancestor (whole components), writeout_untouched / writeout_written (deletes before writes; untouched paths keep their bytes). Tie: real InMemoryFileProvider op sequences, renameCandidate over a name grammar, FindClosestMatchingRoot exhaustively over sibling-prefix roots, DirCleanUpPaths on temp trees, and the real `regal fix --force` binary (both conflict modes, dry-run) with id-tagged files and a one-to-one oracle.",
+             note=TB + "renameCandidate counters below MaxInt64; OS file operations; OPA format preserves comments", ref="5/C13",
+             technique="Lean 4 proof (state-machine invariant by induction over operations, pigeonhole) + differential correspondence + end-to-end oracle"),
  "C14": dict(text="Lean theorems guard_refuses_outside_repo, guard_protects_dirty (a write without --force touches no file with a git status entry, modified or deleted/moved), refusal_leaves_disk, dryrun_noop, dirty_untouched (disk model: deletes then writes), findRepo_spec/findRepo_none; guard_never_fired_old (the repaired defect: relative keys vs absolute paths are disjoint for every input). Tie: the full state matrix as real git repositories, real `regal fix` binary, tree snapshots before/after; exit status vs the guard model.",
              note=TB + "go-git status semantics, os file operations; ignored files are outside the statement", ref="5/C14",
              technique="Lean 4 proof over the decision/disk model + exhaustive scenario correspondence on real git repositories"),
